@@ -29,5 +29,7 @@ done
 res="${res%,}]"
 echo "{\"seed\":${VERIF_SEED:-7},\"repo_head\":\"$(git -C /repo rev-parse --short HEAD)\",\"results\":$res}" > $D/result.json
 git -C /repo checkout -- .
+# the evidence files were rewritten by runs against the modified tree: put the committed ones back
+git -C /verif checkout -q -- evidence/ 2>/dev/null
 git -C /repo clean -fdq -e target 2>/dev/null
 [ -z "$(git -C /repo status --porcelain)" ] || echo "WARNING: /repo not clean after restore"
